@@ -33,6 +33,8 @@ type c25Env struct {
 	plainOn  bool
 	shaSeen  map[string]string
 	attempts int
+
+	bmLookedUpOnly bool // protocol field bm is computed for the looked-up record only (the only one the model reads)
 }
 
 func (e *c25Env) fail(class, what, input, got, want string) {
@@ -167,10 +169,14 @@ func (e *c25Env) attempt(st *c25Store, users map[string]*c25User, user, pass, de
 	for _, s := range before {
 		bm := "0"
 
-		if cost, err := bcrypt.Cost([]byte(s.password)); err == nil && cost > bcrypt.MinCost {
-			// expensive stored hash: consult the library only for the record the spec says is looked up
+		if cost, err := bcrypt.Cost([]byte(s.password)); err == nil && (cost > bcrypt.MinCost || e.bmLookedUpOnly) {
+			// expensive stored hash (or a phase with thousands of attempts): consult the library only for the
+			// record the spec says is looked up
 			if s.key == lower && pass != "" {
-				e.c12left--
+				if cost >= 10 {
+					e.c12left--
+				}
+
 				if bcrypt.CompareHashAndPassword([]byte(s.password), []byte(pass)) == nil {
 					bm = "1"
 				}
